@@ -266,3 +266,14 @@ def suites(tier, seed):
         Suite("publish-random", "api", lambda: gen_random(tier, seed), monitor=monitor, nontrivial=nontrivial, canon=apigen.canon,
               rule="random publishes (bodies 0..3*frame_max) on 1-3 channels interleaved with other API calls"),
     ]
+
+
+# --- suites of neighbouring properties that also decide this one (cross-listed after wave 6) ---------
+_suites_before_wave6 = suites
+
+
+def suites(tier, seed):
+    def borrow(mod, names):
+        m = __import__("props." + mod, fromlist=["x"])
+        return [s_ for s_ in m.suites(tier, seed) if s_.name in names]
+    return borrow("c05", ("drop-connection-e2e",)) + _suites_before_wave6(tier, seed)
